@@ -209,6 +209,17 @@ def sukfLikelihoods (inv : InvFn α) (bs : Nat) (hdiv : msz % bs = 0) (R : SNois
     let c := sukfComps inv bs hdiv R inp b i
     sukfLik inv (R.cast h) c.Y c.innov)
 
+/-- What `getLikelihood()` answers after the step (code after fix 9d4c3da: `correctStep` forgets the
+    stored innovations when it starts): nothing (`(false, _)`) after every early return, the likelihoods of
+    this step after a successful one. -/
+def sukfStepLikelihood (inv : InvFn α) (bs : Nat) (R : SNoise α msz bs) (inp : SukfIn α n msz s k)
+    (b : GM α n k) : Option (Vec α k) :=
+  if h1 : inp.validMeas = true ∧ msz % bs = 0 then
+    if !inp.validPred then none
+    else if !inp.validInnov then none
+    else some (sukfLikelihoods inv bs h1.2 R inp b)
+  else none
+
 end step
 
 end BFL
